@@ -48,8 +48,10 @@ var idents = map[string]ident{
 	"k3": {"web.requests", nil, "10.0.0.2"},
 	"k4": {"b", nil, ""},
 	"k5": {"a", gostatsd.Tags{"env:prod"}, "h"},
+	// a series whose timers are histogram timers (they take separate branches in Flush and Reset)
+	"k6": {"lat", gostatsd.Tags{"gsd_histogram:1_5"}, ""},
 }
-var keyNames = []string{"k0", "k1", "k2", "k3", "k4", "k5"}
+var keyNames = []string{"k0", "k1", "k2", "k3", "k4", "k5", "k6"}
 
 func tagsKeyOf(id ident) string { return gostatsd.FormatTagsKey(id.src, id.tags) }
 
@@ -361,6 +363,13 @@ func renderView(m *gostatsd.MetricMap) string {
 	m.Timers.Each(func(n, tk string, t gostatsd.Timer) {
 		zero := t.Count == 0 && t.SampledCount == 0 && t.PerSecond == 0 && t.Min == 0 && t.Max == 0 && t.Mean == 0 &&
 			t.Median == 0 && t.StdDev == 0 && t.Sum == 0 && t.SumSquares == 0
+		if t.Histogram != nil {
+			// a histogram timer reports bucket counts instead of summary statistics; for this property only
+			// "how many values, and is it zeroed" matters: read it from the +Inf bucket
+			cnt := t.Histogram[gostatsd.HistogramThreshold(math.Inf(1))]
+			items = append(items, fmt.Sprintf("t %s %d %s %s", keyTok(n, tk), cnt, b01(cnt > 0), b01(cnt == 0)))
+			return
+		}
 		items = append(items, fmt.Sprintf("t %s %d %s %s", keyTok(n, tk), t.Count, b01(len(t.Percentiles) > 0), b01(zero)))
 	})
 	m.Gauges.Each(func(n, tk string, g gostatsd.Gauge) {
